@@ -12,6 +12,7 @@ import DDS.Driver.CodecOps
 import DDS.Driver.SketchOps
 import DDS.Driver.DatasetOps
 import DDS.Driver.MapOps
+import DDS.Driver.StatOps
 
 namespace DDS.Driver
 
@@ -28,6 +29,7 @@ def step (st : State) (line : String) : State × Option String :=
     if cmd = "#hist" then ({}, none)      -- every history starts from scratch
     else if cmd.startsWith "#" then (st, none)
     else if cmd = "codec" then (st, some (CodecOps.run args))
+    else if cmd = "stat" then (st, some (StatOps.run args))
     else if StoreOps.isStoreCmd cmd then
       let (t, out) := StoreOps.run st.stores cmd args
       ({ st with stores := t }, some out)
